@@ -1,23 +1,195 @@
-(* C20 — all views of a report agree on every test's outcome.  Statements only; proofs are in Proofs/ViewsP.v. *)
+(* C20 — all views of a report agree on every test's outcome.  Statements only; the proofs are in Proofs/ViewsP.v.
+   Spec side (ViewsP.v): count_status st r = length (filter (status is st) (all_tests r)), plain enumeration.
+   Models: Model/Stats.v (ReportStats, build_message variables, console), Model/Junit.v, Model/Diff.v.
+   Statements that are false of the code as it is keep their hypothesis visible (`_partial`) and come with a `_refuted`
+   witness (F12, F13, F14 of DESIGN.md section 6), which harness/props/c20.py re-observes on the implementation on every run. *)
 From Coq Require Import List NArith ZArith Bool.
 Import ListNotations.
 From LCC Require Import Base.Util Model.Report Model.Stats Model.Junit Model.Diff Proofs.ViewsP.
 
-(* ReportStats.from_report: whenever it returns, its numbers are the counts obtained by enumerating all_tests r and filtering
-   by status; it returns for every report whose test statuses are in Result.STATUSES (or None / ""); otherwise KeyError. *)
+(* ------------------------------------------------------------------ JUnit ------------------------------------------ *)
+(* The <testcase> elements are exactly the tests of the report, in all_tests order; the children of each one are described
+   without any hypothesis: a skipped child iff status = skipped, a failure/error child iff the test is not skipped and one of
+   its logs is an error-level log or an unsuccessful check (whatever the status says). *)
+Theorem C20_junit_children : forall r j, junit_report r = VOk j ->
+  flat_map js_cases (jr_suites j) = map (fun t => mkCase (m_name (t_meta t)) (junit_children (t_result t))) (all_tests r) /\
+  forall t, In t (all_tests r) ->
+    has_skipped_child (junit_children (t_result t)) = status_is s_skipped (t_result t) /\
+    has_fail_child (junit_children (t_result t)) =
+      negb (status_is s_skipped (t_result t)) && negb (forallb step_successful (r_steps (t_result t))).
+Proof. exact thm_junit_children. Qed.
+Print Assumptions C20_junit_children.
+
+(* C20_junit_iff, full statement (for every test: failure/error child <-> status failed, skipped child <-> status skipped) is
+   FALSE of the code (C20_junit_iff_refuted).  Proved part: it holds for every test whose recorded verdict is sound
+   (verdict_sound: unless skipped, status = failed exactly when a log is an error log or a failed check) — which the report
+   writer guarantees for finished tests; what is missing is the in-progress test (status None) that already holds an error. *)
+Theorem C20_junit_iff_partial : forall r j, junit_report r = VOk j ->
+  forall t, In t (all_tests r) -> verdict_sound (t_result t) ->
+    (has_fail_child (junit_children (t_result t)) = true <-> r_status (t_result t) = Some s_failed) /\
+    (has_skipped_child (junit_children (t_result t)) = true <-> r_status (t_result t) = Some s_skipped).
+Proof. exact thm_junit_iff_partial. Qed.
+Print Assumptions C20_junit_iff_partial.
+
+(* F12: an in-progress test with an error log gets an <error> child; its status is not failed and every failures counter is 0 *)
+Theorem C20_junit_iff_refuted : exists r j t,
+  junit_report r = VOk j /\ In t (all_tests r) /\ r_status (t_result t) = None /\
+  In (mkCase (m_name (t_meta t)) [JError]) (flat_map js_cases (jr_suites j)) /\
+  has_fail_child (junit_children (t_result t)) = true /\
+  jr_failures j = 0 /\ map js_failures (jr_suites j) = [0].
+Proof. exact thm_junit_iff_refuted. Qed.
+Print Assumptions C20_junit_iff_refuted.
+
+(* per-suite counters = the counts obtained by enumerating the tests of that suite (junit_shown r: the suites that have at
+   least one test, with their path); they add up to the enumeration of the whole report; the top-level failures attribute is the
+   number of failed tests and the top-level `tests` attribute is the number of PASSED tests (sic, junit.py line 71). *)
+Theorem C20_junit_counters : forall r j, junit_report r = VOk j ->
+  Forall2 (fun ps js =>
+             js_name js = path_str (fst ps) /\
+             js_tests js = length (s_tests_of (snd ps)) /\
+             js_failures js = count_in s_failed (s_tests_of (snd ps)) /\
+             js_skipped js = count_in s_skipped (s_tests_of (snd ps)))
+          (junit_shown r) (jr_suites j) /\
+  list_sum (map js_tests (jr_suites j)) = length (all_tests r) /\
+  list_sum (map js_failures (jr_suites j)) = count_status s_failed r /\
+  list_sum (map js_skipped (jr_suites j)) = count_status s_skipped r /\
+  jr_failures j = count_status s_failed r /\ jr_tests j = count_status s_passed r.
+Proof. exact thm_junit_counters. Qed.
+Print Assumptions C20_junit_counters.
+
+(* counters versus children: when the verdicts of a suite's tests are sound, failures = number of testcases carrying a
+   failure/error child and skipped = number of testcases carrying a skipped child.  Missing: in-progress tests (F12). *)
+Theorem C20_junit_counters_children_partial : forall r j, junit_report r = VOk j ->
+  Forall (fun t => verdict_sound (t_result t)) (all_tests r) ->
+  Forall (fun js => js_failures js = length (filter (fun c => has_fail_child (jc_children c)) (js_cases js)) /\
+                    js_skipped js = length (filter (fun c => has_skipped_child (jc_children c)) (js_cases js)))
+         (jr_suites j).
+Proof. exact thm_junit_counters_children_partial. Qed.
+Print Assumptions C20_junit_counters_children_partial.
+
+(* ------------------------------------------------------------------ ReportStats ------------------------------------- *)
 Theorem C20_stats_counts : forall r s, from_report r = VOk s ->
   st_tests_nb s = length (all_tests r) /\
   n_passed (st_by s) = count_status s_passed r /\ n_failed (st_by s) = count_status s_failed r /\
-  n_skipped (st_by s) = count_status s_skipped r /\ n_disabled (st_by s) = count_status s_disabled r.
-Proof. intros r s H. exact (proj1 (stats_counts r s H)). Qed.
+  n_skipped (st_by s) = count_status s_skipped r /\ n_disabled (st_by s) = count_status s_disabled r /\
+  enabled_nb (st_by s) = count_status s_passed r + count_status s_failed r + count_status s_skipped r.
+Proof. exact thm_stats_counts. Qed.
 Print Assumptions C20_stats_counts.
 
+(* from_report returns for every report whose (truthy) test statuses are in Result.STATUSES; its only error is KeyError *)
 Theorem C20_stats_total : forall r,
   (statuses_known r -> exists s, from_report r = VOk s) /\
   (forall e, from_report r = VErr e -> e = KeyError /\ ~ statuses_known r).
-Proof. intro r. split; [apply stats_total | apply stats_err]. Qed.
+Proof. exact thm_stats_total. Qed.
 Print Assumptions C20_stats_total.
 
+(* ------------------------------------------------------------------ message-template variables --------------------- *)
+(* whenever build_message returns, its integer variables are the enumeration counts *)
+Theorem C20_message_vars : forall r m, message_ints r = VOk m ->
+  mv_total m = length (all_tests r) /\
+  mv_passed m = count_status s_passed r /\ mv_failed m = count_status s_failed r /\
+  mv_skipped m = count_status s_skipped r /\ mv_disabled m = count_status s_disabled r /\
+  mv_enabled m = count_status s_passed r + count_status s_failed r + count_status s_skipped r.
+Proof. exact message_vars. Qed.
+Print Assumptions C20_message_vars.
+
+(* "build_message returns for every report with known statuses" is FALSE (F14); it does on finished reports *)
+Theorem C20_message_vars_partial : forall r, finished r -> statuses_known r -> exists m, message_ints r = VOk m.
+Proof. exact thm_message_vars_partial. Qed.
+Print Assumptions C20_message_vars_partial.
+
+Theorem C20_message_vars_refuted : exists r, statuses_known r /\ message_ints r = VErr TypeError.
+Proof. exact thm_message_vars_refuted. Qed.
+Print Assumptions C20_message_vars_refuted.
+
+(* ------------------------------------------------------------------ console (lcc report --short) ------------------- *)
+(* whenever the console report is printed: the OK/KO/-- lines are the selected tests in order, and the summary numbers are the
+   enumeration counts of the selected tests (filter given) or of the whole report (no filter) *)
+Theorem C20_console_counts : forall truthy f r lines s,
+  console_short truthy f r = VOk (COut lines s) ->
+  let sel := filter (fun t => f (t_result t)) (all_tests r) in
+  let shown := if truthy then sel else all_tests r in
+  concat lines = map label_of sel /\
+  sm_tests (summary_of s) = length shown /\
+  sm_passed (summary_of s) = count_in s_passed shown /\
+  sm_failed (summary_of s) = count_in s_failed shown /\
+  sm_skipped (summary_of s) = nz (count_in s_skipped shown) /\
+  sm_disabled (summary_of s) = nz (count_in s_disabled shown).
+Proof. exact thm_console_counts. Qed.
+Print Assumptions C20_console_counts.
+
+Theorem C20_console_labels : forall t, status_in_enum (r_status (t_result t)) ->
+  (label_of t = LOK <-> r_status (t_result t) = Some s_passed) /\ (label_of t = LKO <-> r_status (t_result t) = Some s_failed).
+Proof. exact thm_console_labels. Qed.
+Print Assumptions C20_console_labels.
+
+(* "the console report is printed for every report with known statuses" is FALSE with a filter (F13); true on finished reports *)
+Theorem C20_console_counts_partial : forall truthy f r, finished r -> statuses_known r ->
+  exists out, console_short truthy f r = VOk out.
+Proof. exact console_total. Qed.
+Print Assumptions C20_console_counts_partial.
+
+Theorem C20_console_counts_refuted : exists r, statuses_known r /\
+  rf_truthy f_enabled_only = true /\ console_short true (rf_apply f_enabled_only) r = VErr TypeError /\
+  exists out, console_short false (fun _ => true) r = VOk out.
+Proof. exact thm_console_counts_refuted. Qed.
+Print Assumptions C20_console_counts_refuted.
+
+(* ------------------------------------------------------------------ diff ------------------------------------------- *)
+(* with unique test paths in each report (compute_diff matches tests by path, first come first served): added / removed /
+   status-changed are exactly what their names say, none lists a path twice, and every path of either report falls in exactly
+   one of added / removed / status-changed / unchanged *)
+Theorem C20_diff_partition : forall f r1 r2, unique_test_paths r1 -> unique_test_paths r2 ->
+  let l1 := dtests f r1 in let l2 := dtests f r2 in let d := diff_reports f r1 r2 in
+  (forall x, In x (d_added d) <-> In x l2 /\ ~ In (fst x) (map fst l1)) /\
+  (forall x, In x (d_removed d) <-> In x l1 /\ ~ In (fst x) (map fst l2)) /\
+  (forall s1 s2 p, In (s1, s2, p) (d_changed d) <-> In (p, s1) l1 /\ In (p, s2) l2 /\ s1 <> s2) /\
+  NoDup (map fst (d_added d)) /\ NoDup (map fst (d_removed d)) /\ NoDup (map snd (d_changed d)) /\
+  forall p, In p (map fst l1) \/ In p (map fst l2) ->
+    exactly_one (in_added p d) (in_removed p d) (in_changed p d) (unchanged p l1 l2).
+Proof. exact thm_diff_partition. Qed.
+Print Assumptions C20_diff_partition.
+
+(* the hypothesis is needed: with a duplicated path the same set of (path, status) pairs gives a non-empty diff that lists the
+   path twice *)
+Theorem C20_diff_partition_needs_unique_paths : exists l1 l2 : list dtest,
+  (forall x, In x l1 <-> In x l2) /\ length (d_changed (compute_diff l1 l2)) = 2 /\
+  ~ NoDup (map snd (d_changed (compute_diff l1 l2))).
+Proof. exact thm_diff_partition_needs_unique_paths. Qed.
+Print Assumptions C20_diff_partition_needs_unique_paths.
+
+(* no hypothesis needed *)
 Theorem C20_diff_self_empty : forall f r, diff_reports f r r = mkDiff [] [] [] /\ diff_is_empty (diff_reports f r r) = true.
-Proof. intros f r. unfold diff_reports. rewrite diff_self_empty. split; reflexivity. Qed.
+Proof. exact thm_diff_self_empty. Qed.
 Print Assumptions C20_diff_self_empty.
+
+(* ------------------------------------------------------------------ non-vacuity ------------------------------------ *)
+Example C20_ex_hypotheses :
+  finished w_finished /\ statuses_known w_finished /\ unique_test_paths w_finished /\ unique_test_paths w_finished2 /\
+  Forall (fun t => verdict_sound (t_result t)) (all_tests w_finished) /\ length (all_tests w_finished) = 6 /\
+  Forall (fun t => status_in_enum (r_status (t_result t))) (all_tests w_finished).
+Proof.
+  split; [repeat split; try discriminate; vm_compute; reflexivity|].
+  split; [vm_compute; reflexivity|].
+  split; [apply nodupb_NoDup; vm_compute; reflexivity|].
+  split; [apply nodupb_NoDup; vm_compute; reflexivity|].
+  split; [repeat constructor; intro; vm_compute; reflexivity|].
+  split; [reflexivity|].
+  repeat constructor; unfold status_in_enum; simpl; tauto.
+Qed.
+
+Example C20_ex_views :
+  message_ints w_finished = VOk (mkMsg 8000 6 5 2 2 1 1) /\
+  (exists j, junit_report w_finished = VOk j /\ map js_failures (jr_suites j) = [2; 0] /\ map js_skipped (jr_suites j) = [1; 0]
+             /\ jr_failures j = 2) /\
+  (exists s, console_short true (rf_apply f_enabled_only) w_finished = VOk (COut [[LOK; LKO; LKO; LDash]; [LOK]] s)
+             /\ st_tests_nb s = 5 /\ n_disabled (st_by s) = 0).
+Proof.
+  split; [vm_compute; reflexivity|]. split; eexists; (split; [vm_compute; reflexivity|]); vm_compute; auto.
+Qed.
+
+Example C20_ex_diff :
+  diff_reports (fun _ => true) w_finished w_finished2 =
+  mkDiff [([115; 46; 122]%N, Some s_skipped)] [([115; 46; 100]%N, Some s_skipped)]
+         [(Some s_failed, Some s_passed, [115; 46; 98]%N)].
+Proof. vm_compute. reflexivity. Qed.
